@@ -112,6 +112,18 @@ package vm
 //@ call (*Array).Append requires[stored] arg1 == val
 //@ call (*Struct).Append requires[stored] arg1 == val
 
+// POPITEM: the references held through the popped element are released exactly when the
+// collection it was taken from is itself referenced (Array and Struct alike), and what is
+// released is the popped element.
+//@ spec refd(it stackitem.Item) bool = (is(it, *stackitem.Array) && it.(*stackitem.Array).count != 0) || (is(it, *stackitem.Struct) && it.(*stackitem.Struct).count != 0)
+//@ case POPITEM
+//@ requires op == opcode.POPITEM && v.getPrice == nil && v.estack != nil && len(v.estack.elems) >= 1
+//@ requires is(v.estack.elems[len(v.estack.elems)-1].value, *stackitem.Array) ==> v.estack.elems[len(v.estack.elems)-1].value.(*stackitem.Array) != nil
+//@ requires is(v.estack.elems[len(v.estack.elems)-1].value, *stackitem.Struct) ==> v.estack.elems[len(v.estack.elems)-1].value.(*stackitem.Struct) != nil
+//@ opt inline-defers yes
+//@ call (*refCounter).Remove requires[popped] arg1 == elem && refd(arr) && ncalls(refCounter) == 0
+//@ ensures[released] ncalls(refCounter) == 0 ==> !refd(old(v.estack.elems[len(v.estack.elems)-1].value))
+
 // ---- script loading (C15: who the calling script is; C16: which flags the new context gets)
 //@ prop C15,C16
 //@ func (*Context).ScriptHash
@@ -157,3 +169,13 @@ package vm
 //@ opt frame off
 //@ requires v != nil
 //@ call loadScriptWithCallingHash requires[caller] arg4 == v.cur && arg5 == hash && arg6 == f
+
+// ---- reuse of a VM across the transactions of a block (C04: nothing of a previous, possibly
+// failed, execution is left behind; C12: the accounting starts from zero)
+//@ prop C04,C12
+//@ import vmstate github.com/nspcc-dev/neo-go/pkg/vm/vmstate
+//@ func (*VM).Reset
+//@ requires v != nil && v.estack != nil
+//@ modifies v.state, v.getPrice, v.istack, v.estack.elems, v.uncaughtException, v.refs, v.gasConsumed, v.gasLimit, v.SyscallHandler, v.LoadToken, v.trigger, v.invTree
+//@ ensures[clean] v.state == vmstate.None && v.uncaughtException == nil && len(v.istack) == 0 && len(v.estack.elems) == 0 && v.refs == 0 && v.gasLimit == 0 && v.getPrice == nil && v.invTree == nil && v.trigger == t
+//@ ensures[gas] v.gasConsumed != nil && uint256.u256(*v.gasConsumed) == 0
